@@ -17,7 +17,12 @@ from props import seqlib as S
 
 def oracle(case):
     """None if the property holds on the implementation for this case, else (clause, message)."""
-    obj, out = S.observe(case)
+    try:
+        obj, out = S.observe(case)
+    except Exception as e:  # noqa: size queries, lookups (IndexError of out-of-range tuples is handled inside) and data queries must not raise
+        import traceback
+        where = [f.name for f in traceback.extract_tb(e.__traceback__) if "vrpqubo" in (f.filename or "")]
+        return "raises", f"{type(e).__name__} raised inside {where[-1] if where else 'a query'} while the index maps were read: {e}"
     V, L, N = out["eff"]["V"], out["eff"]["L"], out["N"]     # after the re-enumeration steps, if any
     arcset = {k for k, _ in out["arcs"]}
     ref = S.classify(arcset, V, L, N)
@@ -142,7 +147,10 @@ def run_part(ctx, n_cases=None):
             res2 = oracle(small) or res
             ctx.violation(f"oracle/seq/{res2[0]}", "sequence index maps: " + res2[1],
                           {"case": small, "python": "props.c18_seq.oracle(case)"}, True)
-        obj, out = S.observe(case)
+        try:
+            obj, out = S.observe(case)
+        except Exception:  # noqa: already reported by the oracle above
+            continue
         cases.append((case, out))
         terms.append(S.case_lit(case, out))
         arcset = {kk for kk, _ in out["arcs"]}
